@@ -28,6 +28,7 @@ type c17Arg struct {
 	ReqOut int  `json:"reqout"` // MaxRequestsOut
 	Depth  int  `json:"depth"`
 	Banned bool `json:"banned"` // the history starts with a peer that got banned for a corrupt piece
+	BL     string `json:"bl,omitempty"` // blocklist switches: "" both on | "in" incoming only | "out" outgoing only
 	HangUp bool `json:"hangup"` // ... and that peer hung up right after its last corrupt block, before the hash check result
 }
 
@@ -62,8 +63,8 @@ func mkC17() *Scenario {
 		w.Cfg.MaxPeerDial = arg.Dial
 		w.Cfg.MaxRequestsOut = arg.ReqOut
 		w.Cfg.DefaultRequestsOut = arg.ReqOut
-		w.Cfg.BlocklistEnabledForIncomingConnections = true
-		w.Cfg.BlocklistEnabledForOutgoingConnections = true
+		w.Cfg.BlocklistEnabledForIncomingConnections = arg.BL != "out"
+		w.Cfg.BlocklistEnabledForOutgoingConnections = arg.BL != "in"
 		w.OpenSession()
 		if err := w.S.VerifLoadBlocklist("10.0.9.0/24\n"); err != nil {
 			core.HarnessError("blocklist: %v", err)
@@ -78,7 +79,9 @@ func mkC17() *Scenario {
 		port := w.Tor.VerifState().Port
 		forbidden[fmt.Sprintf("127.0.0.1:%d", port)] = "own listening address"
 		forbidden["10.0.5.5:0"] = "port 0"
-		forbidden[blockedIP+":6881"] = "blocked by the blocklist"
+		if arg.BL != "in" {
+			forbidden[blockedIP+":6881"] = "blocked by the blocklist"
+		}
 		// every dial is answered by a scripted listener of the right kind
 		vnet.W.DialHook = func(addr string) (net.Conn, error) {
 			host, _, _ := net.SplitHostPort(addr)
@@ -318,7 +321,7 @@ func mkC17() *Scenario {
 		// refused incoming connections get no handshake reply
 		for _, p := range in {
 			ip := p.Addr.IP.String()
-			if (ip == blockedIP || (bannedIP != "" && ip == bannedIP)) && p.GotHS {
+			if ((ip == blockedIP && arg.BL != "out") || (bannedIP != "" && ip == bannedIP)) && p.GotHS {
 				failf(w, "C18.incoming-forbidden-answered", "incoming connection from %s (blocked/banned) received a handshake reply", ip)
 			}
 		}
@@ -332,7 +335,7 @@ func mkC17() *Scenario {
 				failf(w, "C17.failed-handshake-kept."+p.kind, "incoming connection %s (%s handshake) was never closed by the client although its handshake failed (client counts %d peers + %d handshakes)", p.Name, p.kind, st.IncomingPeers, st.IncomingHandshakers)
 			}
 			ip := p.Addr.IP.String()
-			if ip == blockedIP && p.Conn != nil && !p.Conn.RemoteClosed() {
+			if ip == blockedIP && arg.BL != "out" && p.Conn != nil && !p.Conn.RemoteClosed() {
 				failf(w, "C18.incoming-blocked-kept", "incoming connection from the blocked address %s was not closed", ip)
 			}
 		}
@@ -354,7 +357,7 @@ func mkC17() *Scenario {
 func TestC17Lab(t *testing.T) {
 	ServeIfWorker(t)
 	rep := core.NewReport(os17Prop(), "lab-limits", "model_checking")
-	rep.Rule = "leeching torrent with MaxPeerAccept/MaxPeerDial in {1,2}, MaxRequestsOut in {1,2}, blocklist 10.0.9.0/24: every history of <= depth operations over {incoming connection: good / seed with extension handshake reqq 500 that never answers / wrong info-hash / silent / from a blocked IP / from an already connected IP / from a banned IP; AddPeer of an address that answers well / with a wrong info-hash / never / refuses / is blocked / is the own listening address / has port 0 / belongs to a connected IP / is banned (the banned peer having stayed, or having hung up before the verdict on its corrupt piece); 11 s clock advance}; caps on the client's own counters and on the sockets it has not closed, failed handshakes closed, forbidden addresses never dialled"
+	rep.Rule = "leeching torrent with MaxPeerAccept/MaxPeerDial in {1,2}, MaxRequestsOut in {1,2}, blocklist 10.0.9.0/24 (applied to both directions, to incoming only, to outgoing only): every history of <= depth operations over {incoming connection: good / seed with extension handshake reqq 500 that never answers / wrong info-hash / silent / from a blocked IP / from an already connected IP / from a banned IP; AddPeer of an address that answers well / with a wrong info-hash / never / refuses / is blocked / is the own listening address / has port 0 / belongs to a connected IP / is banned (the banned peer having stayed, or having hung up before the verdict on its corrupt piece); 11 s clock advance}; caps on the client's own counters and on the sockets it has not closed, failed handshakes closed, forbidden addresses never dialled"
 	rep.Assumptions = []string{"rate limits and the read-cache / write-cache budgets are the component-level parts", "one torrent"}
 	depth := 3
 	var runs []Run
@@ -371,6 +374,10 @@ func TestC17Lab(t *testing.T) {
 				runs = append(runs, Run{Scenario: "c17", Arg: c17Arg{Accept: acc, Dial: dial, ReqOut: acc, Depth: d, Banned: banned}, Budget: 0, MaxExec: 400000})
 			}
 		}
+	}
+	// the blocklist applied to one direction only
+	for _, bl := range []string{"in", "out"} {
+		runs = append(runs, Run{Scenario: "c17", Arg: c17Arg{Accept: 2, Dial: 2, ReqOut: 2, Depth: 2, BL: bl}, Budget: 0, MaxExec: 400000})
 	}
 	// the banned peer hung up before the verdict on its corrupt piece arrived
 	runs = append(runs, Run{Scenario: "c17", Arg: c17Arg{Accept: 2, Dial: 2, ReqOut: 2, Depth: 2, Banned: true, HangUp: true}, Budget: 0, MaxExec: 400000})
